@@ -32,6 +32,57 @@ fn c13_env_budget_reaches_tracker() {
     core::mem::forget(state);
 }
 
+fn leaked_instructions(name: &'static str) -> &'static Instructions<'static> {
+    Box::leak(Box::new(Instructions::new(name, "")))
+}
+
+// @verif props=C06 tier=quick cap=600 group=core fns=BlockStack::{default,append_instructions,instructions,push,pop,len}
+/// Block resolution along an inheritance chain of 1..=3 definitions of one block (appended most-derived first,
+/// as load_blocks does) under EVERY sequence of up to 5 super()-enter / super()-leave steps: the block renders
+/// its most-derived definition, each super() moves to exactly the next definition up the chain, leaving a
+/// super() returns to the one below, and super() in the top-most definition is refused (no parent block).
+#[kani::proof]
+#[kani::unwind(7)]
+fn c06_block_stack_super_chain() {
+    let layers = [leaked_instructions("child"), leaked_instructions("parent"), leaked_instructions("grandparent")];
+    let n: usize = kani::any();
+    kani::assume(n >= 1 && n <= 3);
+    let mut bs = BlockStack::default();
+    let mut i = 0;
+    while i < 3 {
+        if i < n {
+            bs.append_instructions(layers[i]);
+        }
+        i += 1;
+    }
+    assert!(bs.len() == n);
+    assert!(core::ptr::eq(bs.instructions(), layers[0]));
+    let mut d = 0usize;
+    let mut step = 0;
+    let mut refused = false;
+    while step < 5 {
+        let enter: bool = kani::any();
+        if enter {
+            let ok = bs.push();
+            assert!(ok == (d + 1 < n));
+            if ok {
+                d += 1;
+            } else {
+                refused = true;
+            }
+        } else if d > 0 {
+            bs.pop();
+            d -= 1;
+        }
+        assert!(core::ptr::eq(bs.instructions(), layers[d]));
+        step += 1;
+    }
+    kani::cover!(d == 2);
+    kani::cover!(refused && n == 3);
+    kani::cover!(n == 1 && refused);
+    core::mem::forget(bs);
+}
+
 #[cfg(test)]
 mod playback {
     use super::*;
